@@ -323,6 +323,10 @@ def cases(tier, seed):
     for kind in sorted(ERRS):
         i += 1
         yield {"id": i, "fam": "iso-repeat", "kind": kind}
+    # the same, with the faulty flow activated by TWO flows of which the first ends, followed by idle time beyond the clean-up age
+    for kind in sorted(ERRS):
+        i += 1
+        yield {"id": i, "fam": "iso-repeat", "kind": kind, "two": True}
     # long runs: healthy activated flows that act BEFORE their first wait and keep losing action conflicts to each other, next
     # to a faulty activated flow that fails (after it was armed) before its first wait on every restart
     for k in range(40 if tier == "quick" else 400):
@@ -497,8 +501,12 @@ def run_repeat(case):
     stmt = ERRS[kind].replace("{ind}", "  ")
     src = REPEAT_HEADER + "  " + stmt + "\n  match Never()\n"
     hist = ["G", "E", "G", "F", "G", "G", "E"]
-    res = {"key": "repeat:" + kind, "fam": "iso-repeat", "kind": kind, "nontrivial": True, "sample": {"program": src, "history": hist, "error_kind": kind}}
-    obs = {"repeat_" + kind: 1}
+    if case.get("two"):
+        # `first activator` activates the victim before main does and ends on EndFirst; AGE = 6.5 s of (virtual) idle time
+        src = src.replace("  activate victim\n", "  start first activator\n  activate victim\n", 1) + "\nflow first activator\n  activate victim\n  match EndFirst()\n"
+        hist = ["G", "E", "EndFirst", "AGE", "E", "G", "F", "AGE", "G", "G", "E"]
+    res = {"key": "repeat:" + kind + (":two" if case.get("two") else ""), "fam": "iso-repeat", "kind": kind, "nontrivial": True, "sample": {"program": src, "history": hist, "error_kind": kind}}
+    obs = {"repeat_" + kind: 1, "repeat_two_activators": int(bool(case.get("two")))}
     _R["max_ratio"] = 0.0
     _R["rtc_calls"] = 0
     try:
@@ -509,9 +517,10 @@ def run_repeat(case):
         if isinstance(e, (KeyboardInterrupt, SystemExit, steps.WatchdogTimeout)):
             raise
         return dict(res, verdict="violated", observed=obs, mech="exception-escaped-process-events:%s" % type(e).__name__, witness={"program": src, "history": hist, "escaped": str(e)[:200]})
+    hist = [ev for ev in hist if ev != "AGE"]
     per_g = [step.count("SawError") for step, ev in zip(outs[1:], hist) if ev == "G"]
     wit = [[x for x in step if x in ("OutWE", "OutWF", "OutWG")] for step in outs[1:]]
-    exp_wit = [["OutW" + ev] for ev in hist]
+    exp_wit = [["OutW" + ev] if ev in "EFG" else [] for ev in hist]
     obs["repeated_failures_checked"] = len(per_g)
     problems = []
     if kind in REGEX_KINDS:
@@ -538,6 +547,11 @@ async def _drive(src, hist):
     out, st = await runtime.process_events([], None)
     outs.append([e["type"] for e in out])
     for ev in hist:
+        if ev == "AGE":
+            from . import v2h
+
+            v2h.load()["clock"].advance(6.5)
+            continue
         out, st = await runtime.process_events([{"type": ev}], st)
         outs.append([e["type"] for e in out])
     return outs
